@@ -3,7 +3,8 @@
 TB_COMMON = [
     "Lean 4.33.0 kernel; axioms of every property theorem limited to propext / Classical.choice / Quot.sound (printed per theorem in coverage.axioms)",
     "Mathlib v4.33.0 as installed (only in Props/Lib files)",
-    "tools/cxx2lean.py + clang-14 JSON AST: the regenerated Gen/*.lean definitions are what the theorems speak about",
+    "tools/cxx2lean.py + clang-14 JSON AST: the regenerated Gen/*.lean definitions are what the theorems speak about; its array primitives (memmove/memcpy/fill/concat/slice, pointer = array + offset) "
+    "are its reading of the C++ calls, and the source fragments it pins by AST digest instead of translating are tied by the correspondence run only (a change there fails GEN)",
     "harness/*.cpp + dspdriver + the comparison in tools/check.py: the correspondence between hand-written models and the implementation is differential testing, not proof",
     "C++ object model, compiler code generation, libstdc++ and glibc libm are modelled (List/Int/Float/ℝ), not verified",
 ]
